@@ -118,6 +118,8 @@ Section Proofs.
   Variable derive_sk : bytes -> Z -> Z -> option sk.
   Variable sign : sk -> bytes -> bytes.
   Variable zfix : bool.
+  Variable sfix : bool.
+  Variable nfix : bool.
   Variable cfg : amcfg.
   Variable right : bytes.
   Variable acct : bytes.
@@ -160,14 +162,14 @@ Section Proofs.
   Local Notation amstate := (amstate sk).
   Local Notation Inv := (Inv kdf shash sk zfix cfg right acct sk_of).
   Local Notation eff_height := (eff_height pfix pending_height).
-  Local Notation step := (step kdf digest shash open_box sk bytes branch_ok derive_sk sign zfix cfg).
-  Local Notation reachable := (reachable kdf digest shash open_box sk bytes branch_ok derive_sk sign zfix cfg).
+  Local Notation step := (step kdf digest shash open_box sk bytes branch_ok derive_sk sign zfix sfix nfix cfg).
+  Local Notation reachable := (reachable kdf digest shash open_box sk bytes branch_ok derive_sk sign zfix sfix nfix cfg).
   Local Notation sign_input :=
-    (sign_input kdf digest shash open_box sk branch_ok derive_sk sign zfix cfg pk sighash redeem pub_at warmup env pfix pending_height engine).
+    (sign_input kdf digest shash open_box sk branch_ok derive_sk sign zfix sfix nfix cfg pk sighash redeem pub_at warmup env pfix pending_height engine).
   Local Notation sign_loop :=
-    (sign_loop kdf digest shash open_box sk branch_ok derive_sk sign zfix cfg pk sighash redeem pub_at warmup env pfix pending_height engine).
+    (sign_loop kdf digest shash open_box sk branch_ok derive_sk sign zfix sfix nfix cfg pk sighash redeem pub_at warmup env pfix pending_height engine).
   Local Notation sign_raw :=
-    (sign_raw kdf digest shash open_box sk branch_ok derive_sk sign zfix cfg pk sighash redeem pub_at warmup env pfix pending_height engine).
+    (sign_raw kdf digest shash open_box sk branch_ok derive_sk sign zfix sfix nfix cfg pk sighash redeem pub_at warmup env pfix pending_height engine).
   Local Notation template := (engine_template pk verify sighash sha256 pk_of_redeem).
   Local Notation ip2_of := (ip2_of warmup).
 
@@ -235,6 +237,10 @@ Section Proofs.
     - intros H; inversion H; subst. split; intros; congruence.
   Qed.
 
+  (* from here on: the code with the salted buffer freshly allocated (see Keys/Unlock.v) *)
+  Hypothesis Sfix : sfix = true.
+  Hypothesis Nfix : nfix = true.
+
   (* ---------------------------------------------------------------- right passphrase *)
   (* the inputs are unspent outputs of the selected wallet, confirmed, and the withdrawal
      transaction carries the sequence the output class asks for *)
@@ -269,7 +275,7 @@ Section Proofs.
     { destruct (is_single f) eqn:S; [|reflexivity]. cbn. apply Nat.ltb_lt. auto. }
     rewrite C.
     set (red := redeem (pub_at a)). set (m := sighash f t i (u_value u) red).
-    destruct (sign_right kdf digest shash open_box sk bytes branch_ok derive_sk sign zfix cfg right acct ent sk_of ulaws
+    destruct (sign_right kdf digest shash open_box sk bytes branch_ok derive_sk sign zfix sfix nfix cfg right acct ent sk_of ulaws Sfix
                 st a m I) as (st' & uu & Es & I' & _).
     { split; [exact K|apply (sighash_len laws)]. }
     rewrite Es. rewrite Hh.
@@ -321,15 +327,17 @@ Section Proofs.
   Qed.
 
   Theorem sign_ok st fs f t : reachable st -> parse_flag fs = Some f -> owned t -> single_guard f t ->
-    exists t', sign_raw st right fs t = (SOk, init_state, t', Some t') /\
+    exists t', sign_raw st right fs t = (SOk, (init_state cfg), t', Some t') /\
       strip_witness t' = strip_witness t /\
       all_inputs_verify warmup env pfix pending_height engine t'.
   Proof.
     intros R Pf O G. unfold Sign.sign_raw. rewrite Pf.
-    pose proof (reachable_Inv kdf digest shash open_box sk bytes branch_ok derive_sk sign zfix cfg right acct ent sk_of ulaws st R) as I.
+    pose proof (reachable_Inv kdf digest shash open_box sk bytes branch_ok derive_sk sign zfix sfix nfix cfg right acct ent sk_of ulaws Sfix Nfix st R) as I.
     destruct (sign_loop_right f t O G (length (t_ins t)) 0%nat st t) as (st' & t' & E & I' & S' & V); auto.
     { intros j Hj. lia. }
-    rewrite E. exists t'. split; [reflexivity|]. split; [exact S'|].
+    rewrite E. exists t'.
+    rewrite (clear_is_init kdf shash sk zfix cfg right acct sk_of st' I').
+    split; [reflexivity|]. split; [exact S'|].
     intros i inp N.
     assert (Hi : (i < length (t_ins t))%nat).
     { rewrite <- (strip_len t' t S'). apply nth_error_Some. congruence. }
@@ -361,7 +369,7 @@ Section Proofs.
     destruct (negb (is_single f) || (i <? length (t_outs t))%nat) eqn:C.
     - destruct (u_addr u) as [a|] eqn:A.
       + destruct (env_addr laws _ u a E A) as [K _].
-        destruct (sign_wrong kdf digest shash open_box sk bytes branch_ok derive_sk sign zfix cfg right acct ent sk_of ulaws
+        destruct (sign_wrong kdf digest shash open_box sk bytes branch_ok derive_sk sign zfix sfix nfix cfg right acct ent sk_of ulaws Sfix Nfix
                     st p a (sighash f t i (u_value u) (redeem (pub_at a))) I) as (st' & Es & I' & _); auto.
         { split; [exact K|apply (sighash_len laws)]. }
         rewrite Es. eexists; exists st'. fin I'. * discriminate. * reflexivity.
@@ -423,7 +431,7 @@ Section Proofs.
                   (r = SOk /\ sign_raw st p fs t = (SOk, st', t, Some t)).
   Proof.
     intros R Hp.
-    pose proof (reachable_Inv kdf digest shash open_box sk bytes branch_ok derive_sk sign zfix cfg right acct ent sk_of ulaws st R) as I.
+    pose proof (reachable_Inv kdf digest shash open_box sk bytes branch_ok derive_sk sign zfix sfix nfix cfg right acct ent sk_of ulaws Sfix Nfix st R) as I.
     unfold Sign.sign_raw. destruct (parse_flag fs) as [f|].
     - destruct (sign_loop_wrong p f (seq 0 (length (t_ins t))) Hp st t I) as (r & st' & E & _).
       rewrite E. destruct r; eauto.
@@ -434,7 +442,7 @@ Section Proofs.
     exists r st', sign_raw st p fs t = (r, st', t, None) /\ r <> SOk.
   Proof.
     intros R Hp Un Ne.
-    pose proof (reachable_Inv kdf digest shash open_box sk bytes branch_ok derive_sk sign zfix cfg right acct ent sk_of ulaws st R) as I.
+    pose proof (reachable_Inv kdf digest shash open_box sk bytes branch_ok derive_sk sign zfix sfix nfix cfg right acct ent sk_of ulaws Sfix Nfix st R) as I.
     unfold Sign.sign_raw. destruct (parse_flag fs) as [f|].
     - destruct (sign_loop_wrong p f (seq 0 (length (t_ins t))) Hp st t I) as (r & st' & E & _ & A & _).
       rewrite E.
@@ -453,7 +461,7 @@ Section Proofs.
     exists st', sign_raw st p fs t = (SErr (SKeystore EInvalidPassphrase), st', t, None).
   Proof.
     intros R Hp Pf N Ev Sp Ad Sg.
-    pose proof (reachable_Inv kdf digest shash open_box sk bytes branch_ok derive_sk sign zfix cfg right acct ent sk_of ulaws st R) as I.
+    pose proof (reachable_Inv kdf digest shash open_box sk bytes branch_ok derive_sk sign zfix sfix nfix cfg right acct ent sk_of ulaws Sfix Nfix st R) as I.
     unfold Sign.sign_raw. rewrite Pf.
     destruct (sign_loop_wrong p f (seq 0 (length (t_ins t))) Hp st t I) as (r & st' & E & _ & _ & B).
     rewrite E.
@@ -474,10 +482,10 @@ Section Proofs.
     parse_flag fs = Some f -> nth_error (t_ins t) 0 = Some inp ->
     env (in_prev inp) = LOut u -> u_spent u = false -> u_addr u = Some a -> u_height u = None ->
     (is_single f = true -> (0 < length (t_outs t))%nat) ->
-    exists t', sign_raw st right fs t = (SPanic, init_state, t', None).
+    exists t', sign_raw st right fs t = (SPanic, (init_state cfg), t', None).
   Proof.
     intros P R Pf N Ev Sp Ad Hh Sg.
-    pose proof (reachable_Inv kdf digest shash open_box sk bytes branch_ok derive_sk sign zfix cfg right acct ent sk_of ulaws st R) as I.
+    pose proof (reachable_Inv kdf digest shash open_box sk bytes branch_ok derive_sk sign zfix sfix nfix cfg right acct ent sk_of ulaws Sfix Nfix st R) as I.
     unfold Sign.sign_raw. rewrite Pf.
     destruct (t_ins t) as [|inp0 l] eqn:Et; [discriminate|]. cbn in N. injection N as ->.
     cbn [length seq Sign.sign_loop]. unfold Sign.sign_input. rewrite Et. cbn [nth_error].
@@ -486,9 +494,10 @@ Section Proofs.
     { destruct (is_single f) eqn:S1; [|reflexivity]. cbn [negb orb]. apply Nat.ltb_lt. auto. }
     rewrite C.
     destruct (env_addr laws _ u a Ev Ad) as [K _].
-    destruct (sign_right kdf digest shash open_box sk bytes branch_ok derive_sk sign zfix cfg right acct ent sk_of ulaws
-                st a (sighash f t 0 (u_value u) (redeem (pub_at a))) I) as (st' & uu & Es & _).
+    destruct (sign_right kdf digest shash open_box sk bytes branch_ok derive_sk sign zfix sfix nfix cfg right acct ent sk_of ulaws Sfix
+                st a (sighash f t 0 (u_value u) (redeem (pub_at a))) I) as (st' & uu & Es & I' & _).
     { split; [exact K|apply (sighash_len laws)]. }
-    rewrite Es. unfold Sign.eff_height. rewrite Hh, P. eexists. reflexivity.
+    rewrite Es. unfold Sign.eff_height. rewrite Hh, P.
+    rewrite (clear_is_init kdf shash sk zfix cfg right acct sk_of st' I'). eexists. reflexivity.
   Qed.
 End Proofs.
